@@ -278,6 +278,9 @@ class Models:
         while type(v) is Ptr: v = v.get()
         k = a.kind
         if k == 'display': self.display(v, out)
+        elif k == 'sdisplay':
+            if isinstance(v, z3.ExprRef): out.append(('sdec', v))
+            else: out.append(str(v))
         elif k == 'debug': self.debug(v, out)
         elif k in ('hex', 'HEX'):
             if isinstance(v, z3.ExprRef): out.append((k, v))
@@ -301,7 +304,8 @@ class Models:
             fm = Fmtr()
             self.I.run_fn(f, [Ptr([v], 0), fm])
             out.extend(fm.buf)
-        elif t is Opaque: out.append('<%s>' % v.what)
+        elif t is Opaque:
+            out.append('out of range integral type conversion attempted' if v.what == 'TryFromIntError' else '<%s>' % v.what)
         else:
             raise Unsupported('Display of %r' % (v,))
 
@@ -790,7 +794,9 @@ def _anyhow_ok(M, a, info): return OK(a[0])
 
 # ====================================================================== fmt
 @model('Argument::new_display')
-def _arg_display(M, a, info): return FmtArg('display', a[0])
+def _arg_display(M, a, info):
+    t = last_generic(info[-1]).strip()
+    return FmtArg('sdisplay' if t in ('isize', 'i8', 'i16', 'i32', 'i64', 'i128') else 'display', a[0])
 
 
 @model('Argument::new_debug')
